@@ -77,7 +77,7 @@ func inprocChild(script string) int {
 // runInProcess performs the experiment for one program.
 func (c *c19) runInProcess(i int, p *idl.Program, src map[string]string, rootPlus string, tgts []target, dir string) {
 	run := c.run
-	rootFile := p.Root().FileName()
+	rootFile := rootOf(p)
 	revs := map[string]map[string]string{"A": src, "B": {}}
 	for n, t := range src {
 		revs["B"][n] = t
